@@ -54,6 +54,16 @@ func main() {
 			bad = true
 		}
 		writeIfChanged(filepath.Join(out, "FiatKernels.lean"), s)
+	case "ssa":
+		// purego: every function has a Go body; instructions 1:1 with go/ssa, plus untrusted label hints.
+		s, f := translateSSA(repo)
+		for _, m := range f {
+			fmt.Println("UNSUPPORTED", m)
+			bad = true
+		}
+		if !bad {
+			writeIfChanged(filepath.Join(out, "Ssa.lean"), s)
+		}
 	case "asm":
 		bad = !runAsm(repo, out)
 	case "facts":
